@@ -166,7 +166,7 @@ fn gen_history(t: &mut Tape, with_queries: bool, max_ops: usize) -> Value {
   let n_ops = 1 + t.choose(max_ops);
   let mut ops = vec![];
   for _ in 0..n_ops {
-    let kind = if with_queries { t.weighted(&[5, 2, 2, 1, 1, 14]) } else { t.weighted(&[5, 2, 2, 1, 1, 0]) };
+    let kind = if with_queries { t.weighted(&[5, 2, 2, 1, 1, 14, 2]) } else { t.weighted(&[5, 2, 2, 1, 1, 0, 3]) };
     match kind {
       0 | 1 => {
         let count = if kind == 0 { 1 } else { 2 + t.choose(2) };
@@ -207,6 +207,27 @@ fn gen_history(t: &mut Tape, with_queries: bool, max_ops: usize) -> Value {
         live.retain(|x| *x != a);
         texts.remove(&a);
         ops.push(json!({"op": "remove", "names": [n.module(a)]}));
+      }
+      6 => {
+        // an edit that keeps every signature: lines in front of the text / after the first line, or a changed body
+        if live.is_empty() {
+          continue;
+        }
+        let m = live[t.choose(live.len())];
+        let cur = texts.get(&m).cloned().unwrap_or_default();
+        let pad = ["// moved\n", "\n", "/* a block\n   comment */\n"][t.choose(3)].repeat(1 + t.choose(3));
+        let text = match t.weighted(&[3, 2, 2]) {
+          0 => format!("{pad}{cur}"),
+          1 => match cur.find('\n') {
+            Some(i) => format!("{}{pad}{}", &cur[..=i], &cur[i + 1..]),
+            None => format!("{cur}\n{pad}"),
+          },
+          _ => {
+            if cur.contains(" = 0\n") { cur.replacen(" = 0\n", " =\n    0 + 0\n", 1) } else { cur.replacen(" = true\n", " =\n    !false\n", 1) }
+          }
+        };
+        texts.insert(m, text.clone());
+        ops.push(json!({"op": "update", "mods": [{"name": n.module(m), "text": text}], "layout_only": true}));
       }
       4 => {
         // re-send the current text of a live module (no-op edit)
@@ -376,6 +397,61 @@ fn gen_history_syntactic(t: &mut Tape, max_ops: usize) -> Value {
   json!({"initial": initial, "ops": ops, "syntactic": true})
 }
 
+/// text of one module of a long session: `count` members whose names, parameter names and string
+/// literals are all longer than the heap's inline capacity and unique to (module, step), so every
+/// edit interns ~3*count strings that no earlier edit interned
+fn long_session_text(which: usize, step: u64, count: u64, flavour: u64) -> String {
+  let mut s = String::new();
+  let me = ["SessionModuleA", "SessionModuleB"][which % 2];
+  if which % 2 == 1 {
+    s.push_str("import { SessionModuleA } from SessionModuleA;\n\n");
+  }
+  s.push_str(&format!("class {me}(val fieldWithAVeryLongNameOfStep{step}: int) {{\n"));
+  s.push_str(&format!("  function makeOneOfTheseWithALongName(): {me} = {me}.init({step})\n\n"));
+  if which % 2 == 1 {
+    s.push_str("  function useTheOtherModuleOfTheSession(): SessionModuleA = SessionModuleA.makeOneOfTheseWithALongName()\n\n");
+  }
+  for j in 0..count {
+    s.push_str(&format!(
+      "  function generatedMember{which}x{step}x{j}WithALongName(aParameterWithAVeryLongName{which}x{step}x{j}: int): Str =\n    \"a fresh string literal, module {which} step {step} member {j}\"\n\n"
+    ));
+  }
+  match flavour % 4 {
+    1 => s.push_str(&format!("  function illTyped{step}(): int = anUnboundNameThatIsVeryLongOfStep{which}x{step}\n\n")),
+    2 => s.push_str(&format!("  /** a doc comment that is only alive during step {step} of module {which} */\n  function documentedMemberOfStep{step}(): int = 0\n\n")),
+    _ => {}
+  }
+  s.push_str("}\n");
+  s
+}
+
+/// long sessions: two modules, 30-150 edits each interning hundreds of fresh long strings (the string
+/// table outgrows what one incremental GC slice sweeps, so sweeps span several edits), with a few
+/// requests after every edit
+fn gen_history_long(t: &mut Tape, tier: Tier) -> Value {
+  let n_edits = if tier == Tier::Quick { 30 + t.choose(120) } else { 60 + t.choose(400) } as u64;
+  let initial = vec![json!({"name": ["SessionModuleA"], "text": long_session_text(0, 0, 2, 0)}), json!({"name": ["SessionModuleB"], "text": long_session_text(1, 0, 2, 0)})];
+  let mut cur = [long_session_text(0, 0, 2, 0), long_session_text(1, 0, 2, 0)];
+  let mut ops = vec![];
+  for step in 1..=n_edits {
+    let which = t.weighted(&[3, 2]);
+    let count = (20 + t.choose(180)) as u64;
+    let flavour = t.choose(4) as u64;
+    cur[which] = long_session_text(which, step, count, flavour);
+    ops.push(json!({"op": "update-gen", "which": which, "step": step, "count": count, "flavour": flavour}));
+    for _ in 0..(1 + t.choose(3)) {
+      let m = t.choose(2);
+      let lines: Vec<&str> = cur[m].split('\n').collect();
+      let li = t.choose(lines.len());
+      let cols: Vec<usize> = lines[li].char_indices().filter(|(_, c)| c.is_ascii_alphanumeric()).map(|(i, _)| i).collect();
+      let col = if cols.is_empty() { 0 } else { cols[t.choose(cols.len())] };
+      let q = ["hover", "completion", "definition", "references", "rename", "code-actions", "format", "folding", "signature"][t.weighted(&[5, 3, 3, 3, 2, 2, 4, 1, 1])];
+      ops.push(json!({"op": "query", "kind": q, "module": [if m == 0 { "SessionModuleA" } else { "SessionModuleB" }], "line": li, "col": col, "end_col": col + 3, "new_name": "aRenamedVariableWithAVeryLongName"}));
+    }
+  }
+  json!({"initial": initial, "ops": ops, "long_session": true})
+}
+
 // ------------------------------------------------------------------------------- interpretation
 
 fn name_of(v: &Value) -> Vec<String> {
@@ -427,6 +503,15 @@ impl World {
           ups.push((mr_of(&mut self.state.heap, &name), text));
         }
         self.state.update(ups);
+      }
+      "update-gen" => {
+        let which = o["which"].as_u64().unwrap_or(0) as usize;
+        let name = vec![["SessionModuleA", "SessionModuleB"][which % 2].to_string()];
+        let text = long_session_text(which, o["step"].as_u64().unwrap_or(0), o["count"].as_u64().unwrap_or(1), o["flavour"].as_u64().unwrap_or(0));
+        self.note(&name);
+        self.model.insert(name.join("."), text.clone());
+        let mr = mr_of(&mut self.state.heap, &name);
+        self.state.update(vec![(mr, text)]);
       }
       "rename" => {
         let mut pairs = vec![];
@@ -482,7 +567,17 @@ fn diagnostics(state: &mut ServerState, names: &BTreeMap<String, Vec<String>>) -
   let mut out = BTreeMap::new();
   for (k, name) in names {
     let mr = mr_of(&mut state.heap, name);
-    let mut v: Vec<String> = state.get_errors(&mr).iter().map(|e| format!("{} {}", e.location.pretty_print(&state.heap), e.to_ide_format(&state.heap, &state.string_sources).ide_error)).collect();
+    // everything a client is sent for a diagnostic: range, short message, full rendering (with its
+    // code frames, cut from the texts the server holds) and the related locations
+    let mut v: Vec<String> = state
+      .get_errors(&mr)
+      .iter()
+      .map(|e| {
+        let ide = e.to_ide_format(&state.heap, &state.string_sources);
+        let refs: Vec<String> = ide.reference_locs.iter().map(|l| l.pretty_print(&state.heap)).collect();
+        format!("{} {}\n  related: {:?}\n  full: {}", e.location.pretty_print(&state.heap), ide.ide_error, refs, ide.full_error)
+      })
+      .collect();
     v.sort();
     out.insert(k.clone(), v);
   }
@@ -498,6 +593,7 @@ fn op_summary(o: &Value) -> String {
     "update" => format!("update {:?}", o["mods"].as_array().cloned().unwrap_or_default().iter().map(|m| name_of(&m["name"]).join(".")).collect::<Vec<_>>()),
     "rename" => format!("rename {}", o["pairs"]),
     "remove" => format!("remove {}", o["names"]),
+    "update-gen" => format!("update session module {} with {} fresh members (step {}, flavour {})", o["which"], o["count"], o["step"], o["flavour"]),
     _ => format!("query {} at {}:{}:{}", o["kind"].as_str().unwrap_or(""), name_of(&o["module"]).join("."), o["line"], o["col"]),
   }
 }
@@ -507,7 +603,7 @@ impl Prop for C10 {
     "C10"
   }
   fn rule(&self) -> String {
-    "histories of 1-14 operations (single and multi-module update, creation, no-op update, rename-module onto a fresh or an existing name, remove; also of modules that do not exist) over a pool of six module names, starting from 0-5 initial modules; module contents are generated with 0-4 imports among the pool (self-imports, cycles, missing modules, wrong class names), classes whose member signatures other modules depend on transitively (return types naming imported classes), interfaces implemented by classes of other modules, private classes, injected type errors / unbound names, empty files, comment-only files and unparsable text, short or long (heap-allocated) identifiers; oracle (differential): after every operation the rendered diagnostics (location + message) held for every module name ever mentioned must equal, as sorted lists, those of a fresh ServerState built from the current contents, and the set of modules must be the same; non-trivial = >=3 operations, >=2 modules alive at some point and >=1 diagnostic somewhere during the history; distinct = hash of the history".into()
+    "histories of 1-14 operations (single and multi-module update, creation, no-op update, signature-preserving edits of a live module (comment / blank lines in front of the text or after its first line, a re-laid-out member body), rename-module onto a fresh or an existing name, remove; also of modules that do not exist) over a pool of six module names, starting from 0-5 initial modules; module contents are generated with 0-4 imports among the pool (self-imports, cycles, missing modules, wrong class names), classes whose member signatures other modules depend on transitively (return types naming imported classes), interfaces implemented by classes of other modules, private classes, injected type errors / unbound names, empty files, comment-only files and unparsable text, short or long (heap-allocated) identifiers; oracle (differential): after every operation the rendered diagnostics (location, short message, full rendering with code frames, related locations) held for every module name ever mentioned must equal, as sorted lists, those of a fresh ServerState built from the current contents, and the set of modules must be the same; non-trivial = >=3 operations, >=2 modules alive at some point and >=1 diagnostic somewhere during the history; distinct = hash of the history".into()
   }
   fn assumptions(&self) -> Vec<String> {
     vec![
@@ -582,7 +678,7 @@ impl Prop for C10 {
     out.nontrivial = ops.len() >= 3 && max_live >= 2 && any_diag;
     out.label(format!("ops:{}", if ops.len() < 3 { "<3" } else if ops.len() < 8 { "3-7" } else { ">=8" }));
     for o in &ops {
-      out.label(format!("op:{}", o["op"].as_str().unwrap_or("")));
+      out.label(format!("op:{}{}", o["op"].as_str().unwrap_or(""), if o["layout_only"].as_bool() == Some(true) { ":signature-preserving-edit" } else { "" }));
     }
     out.label(if any_diag { "diagnostics:some" } else { "diagnostics:none" });
     out.sample = Some(json!({"history": history.iter().take(10).collect::<Vec<_>>(), "modules_alive_max": max_live}));
@@ -595,7 +691,7 @@ impl Prop for C11 {
     "C11"
   }
   fn rule(&self) -> String {
-    "three workspace kinds. (1, 4 cases in 10) C10's histories (updates, creations, renames, removals over six module names with valid, ill-typed, empty and unparsable contents, short or long heap-allocated identifiers; every edit runs a GC slice) interleaved with requests - hover, completion, signature help, go to definition, find references, rename (valid, long, capitalised, empty and spaced new names), code actions over a range, format, folding ranges - at identifier characters (3 in 4) or anywhere up to 3 lines / 4 columns outside the text, on live, never-edited, renamed, removed and never-existing modules. (2, 3 in 10) a G1 generated program (every language construct: generics, interfaces, lambdas and closures, patterns, match, method references...) together with the std modules it imports, edited by single-fault mutants of its modules (22 fault kinds), module renames and removals, with requests at identifier / `.` / `(` positions of user and std modules. (3, 3 in 10) four modules whose contents come from the grammar-based generator G5 (every production of the grammar, mostly ill-typed) with comments and, 3 times in 4, identifiers longer than the heap's inline capacity in every identifier position (unused parameters, fields, type parameters, pattern variables, imports ...), replaced, renamed and removed, with requests at identifier positions; oracle: no call aborts (every call runs under catch_unwind; a panic is a violation keyed by its source location); non-trivial = >=1 edit and >=3 requests; distinct = hash of the history".into()
+    "four workspace kinds. (0, 1 case in 80) long sessions: two modules (one importing the other), 30-150 edits (thorough: up to 460) each replacing one module by 20-200 members whose names, parameter names and string literals are longer than the heap's inline capacity and never seen before, sometimes ill-typed or with a doc comment, so that the string table outgrows what one incremental GC slice sweeps (10 000 slots) and a sweep spans several edits; 1-3 requests after every edit. (1, 4 of the remaining cases in 10) C10's histories (updates, creations, renames, removals over six module names with valid, ill-typed, empty and unparsable contents, short or long heap-allocated identifiers; every edit runs a GC slice) interleaved with requests - hover, completion, signature help, go to definition, find references, rename (valid, long, capitalised, empty and spaced new names), code actions over a range, format, folding ranges - at identifier characters (3 in 4) or anywhere up to 3 lines / 4 columns outside the text, on live, never-edited, renamed, removed and never-existing modules. (2, 3 in 10) a G1 generated program (every language construct: generics, interfaces, lambdas and closures, patterns, match, method references...) together with the std modules it imports, edited by single-fault mutants of its modules (22 fault kinds), module renames and removals, with requests at identifier / `.` / `(` positions of user and std modules. (3, 3 in 10) four modules whose contents come from the grammar-based generator G5 (every production of the grammar, mostly ill-typed) with comments and, 3 times in 4, identifiers longer than the heap's inline capacity in every identifier position (unused parameters, fields, type parameters, pattern variables, imports ...), replaced, renamed and removed, with requests at identifier positions; oracle: no call aborts (every call runs under catch_unwind; a panic is a violation keyed by its source location); non-trivial = >=1 edit and >=3 requests; distinct = hash of the history".into()
   }
   fn assumptions(&self) -> Vec<String> {
     vec![
@@ -611,6 +707,9 @@ impl Prop for C11 {
   }
   fn generate(&self, t: &mut Tape, tier: Tier) -> Value {
     let max_ops = if tier == Tier::Quick { 40 } else { 120 };
+    if t.bool(1, 80) {
+      return gen_history_long(t, tier);
+    }
     match t.weighted(&[4, 3, 3]) {
       0 => gen_history(t, true, max_ops),
       1 => gen_history_rich(t, tier, max_ops),
@@ -658,7 +757,13 @@ impl Prop for C11 {
       }
     }
     out.nontrivial = edits >= 1 && queries >= 3;
-    if art["rich"] == true {
+    if art["long_session"] == true {
+      out.label("workspace:long-session");
+      // how far the string table grew: a table above the sweep unit means sweeps span several edits
+      let stat = w.state.heap.stat();
+      let slots: u64 = stat.split("Total slots: ").nth(1).and_then(|x| x.split('.').next()).and_then(|x| x.trim().parse().ok()).unwrap_or(0);
+      out.label(format!("long-session:string-table-slots:{}", if slots < 10_000 { "<10000" } else if slots < 30_000 { "10000-29999" } else { ">=30000" }));
+    } else if art["rich"] == true {
       out.label("workspace:G1-program+std");
     } else if art["syntactic"] == true {
       out.label("workspace:grammar-generated-modules");
